@@ -330,6 +330,38 @@ func c07Stop(c *core.Ctx, pkg *packages.Package) {
 			return true
 		})
 		c.Check(recvs == 1, "C07.stop", "node.Wait#errCh", wt.Decl.Pos(), "node.Wait must receive the run result from errCh (found %d receives)", recvs)
+		// the receive happens with finishedMu held, so that a second concurrent waiter blocks until the node has really finished
+		var lock, unlock, recv token.Pos
+		deferredUnlock := false
+		ast.Inspect(wt.Decl.Body, func(n ast.Node) bool {
+			switch x := n.(type) {
+			case *ast.DeferStmt:
+				if sel, ok := x.Call.Fun.(*ast.SelectorExpr); ok && sel.Sel.Name == "Unlock" && an.FieldSel(info, sel.X, "node", "finishedMu") {
+					deferredUnlock = true
+					return false
+				}
+			case *ast.CallExpr:
+				if sel, ok := x.Fun.(*ast.SelectorExpr); ok && an.FieldSel(info, sel.X, "node", "finishedMu") {
+					switch sel.Sel.Name {
+					case "Lock":
+						if lock == token.NoPos {
+							lock = x.Pos()
+						}
+					case "Unlock":
+						if unlock == token.NoPos {
+							unlock = x.Pos()
+						}
+					}
+				}
+			case *ast.UnaryExpr:
+				if x.Op == token.ARROW && an.FieldSel(info, x.X, "node", "errCh") {
+					recv = x.Pos()
+				}
+			}
+			return true
+		})
+		held := lock != token.NoPos && recv != token.NoPos && lock < recv && (deferredUnlock && unlock == token.NoPos || unlock > recv)
+		c.Check(held, "C07.stop", "node.Wait#held", wt.Decl.Pos(), "node.Wait must hold finishedMu across the receive from errCh: otherwise a second waiter (ExecutingTask.stop, while the task store's goroutine is already blocked in et.Wait) returns nil at once and the stop completes while the node is still draining its backlog")
 	}
 }
 
@@ -470,6 +502,23 @@ func c07TM(c *core.Ctx, pkg *packages.Package) {
 		})
 		c.Check(wait != token.NoPos && del != token.NoPos && wait < del, "C07.tm", "TaskMaster.Drain#wait-first", fn.Decl.Pos(), "Drain must wait for the fork goroutines to hand over what was written (waitForForks) before it closes the task edges")
 		c09LoopNoExit(c, "C07.tm", "TaskMaster.Drain#all-forks", fn, info, "tm.taskToForkKeys", "delFork", nil)
+	}
+	if fn := c.Need("C07.tm", "", "TaskMaster", "DeleteTask"); fn != nil {
+		var stop, hooks token.Pos
+		ast.Inspect(fn.Decl.Body, func(n ast.Node) bool {
+			if call, ok := n.(*ast.CallExpr); ok {
+				if f := core.Callee(info, call); f != nil {
+					switch f.Name() {
+					case "stopTask":
+						stop = call.Pos()
+					case "deleteTask":
+						hooks = call.Pos()
+					}
+				}
+			}
+			return true
+		})
+		c.Check(stop != token.NoPos && hooks != token.NoPos && stop < hooks, "C07.tm", "TaskMaster.DeleteTask#stop-before-hooks", fn.Decl.Pos(), "DeleteTask must stop (drain) the task before it runs the delete hooks: the alert node's hook deletes its topic and handlers, and what the node still drains afterwards is collected into a topic without handlers — dropped silently")
 	}
 	if fn := c.Need("C07.tm", "", "TaskMaster", "StopTasks"); fn != nil {
 		c09LoopNoExit(c, "C07.tm", "TaskMaster.StopTasks#all-tasks", fn, info, "tm.tasks", "stopTask", nil)
